@@ -246,3 +246,42 @@ theorem field_lt (m : Msg) (sb eb : Nat) : field m sb eb < 2 ^ (eb + 1 - sb) :=
   Nat.mod_lt _ (Nat.pow_pos (by decide))
 
 end Sq
+
+namespace Sq
+open Spec
+
+/-- the single bit read by `flag_and_range_value` is the frame bit of that position -/
+theorem flagBit_eq_field (m : Msg) (h : AllNib m) (p : Nat) (h1 : 1 ≤ p) (h2 : p ≤ 4 * m.length) :
+    flagBit m p = field m p p := by
+  have hr := rangeValue_eq_field m h p p h1 (Nat.le_refl p) h2
+  unfold rangeValue at hr
+  simp only [bitLocation_eq, Nat.lt_irrefl, false_or, and_false, if_false, Nat.sub_self,
+    Option.some.injEq, true_and] at hr
+  unfold flagBit
+  have hp : ¬ p = 0 := by omega
+  simp only [hp, if_false, bitLocation_eq]
+  rw [← hr]
+  have hx := nib_lt m h ((p - 1) / 4)
+  have hb : (p - 1) % 4 < 4 := Nat.mod_lt _ (by decide)
+  generalize nib m ((p - 1) / 4) = x at *
+  generalize (p - 1) % 4 = b at *
+  have : ∀ x : Fin 16, ∀ b : Fin 4, (x.val >>> (3 - b.val)) &&& 1 = (x.val &&& (0xF >>> b.val)) >>> (3 - b.val) := by decide
+  exact this ⟨x, hx⟩ ⟨b, hb⟩
+
+theorem flagAndRangeValue_eq (m : Msg) (h : AllNib m) (flag sb eb : Nat) (hf : 1 ≤ flag) (hf2 : flag ≤ 4 * m.length)
+    (h1 : 1 ≤ sb) (h2 : sb ≤ eb) (h3 : eb ≤ 4 * m.length) :
+    flagAndRangeValue m flag sb eb = some (field m flag flag, field m sb eb) := by
+  unfold flagAndRangeValue
+  rw [rangeValue_eq_field m h sb eb h1 h2 h3, flagBit_eq_field m h flag hf hf2]
+  rfl
+
+theorem statusFlagAndRangeValue_eq (m : Msg) (h : AllNib m) (status flag sb eb : Nat)
+    (hs : 1 ≤ status) (hs2 : status ≤ 4 * m.length) (hf : 1 ≤ flag) (hf2 : flag ≤ 4 * m.length)
+    (h1 : 1 ≤ sb) (h2 : sb ≤ eb) (h3 : eb ≤ 4 * m.length) :
+    statusFlagAndRangeValue m status flag sb eb
+      = some (field m status status, field m flag flag, field m sb eb) := by
+  unfold statusFlagAndRangeValue
+  rw [flagAndRangeValue_eq m h flag sb eb hf hf2 h1 h2 h3, flagBit_eq_field m h status hs hs2]
+  rfl
+
+end Sq
